@@ -89,7 +89,7 @@ static int visit_cb(const void *e, cstl_bintree_visit_order_t order, void *p)
     e_check_priv(p);
     cb_count++;
     ev_add("[%d,%d]", id_of_el(e), (int)order);
-    return (cb_stop && cb_count == cb_stop) ? 100 + cb_stop : 0;
+    return (cb_stop && cb_count == cb_stop) ? e_stopval(cb_stop) : 0;
 }
 static int clear_poison;
 static void clear_cb(void *e, void *p)
